@@ -2,11 +2,20 @@
    a concrete skeleton (closed by vm_compute).  The same skeletons are in corpus/C01 and are replayed on the
    implementation on every run.  The witnesses of the four defects repaired by fix: commits (see
    known_findings.json) stay in corpus/C01 as regression inputs that must now satisfy the specification. *)
-From TL Require Import Lib.Base Lib.GenTypes Gen.NestingGen Model.Skel Model.Nesting Model.NestingRun Actual.NestingActual.
+From TL Require Import Lib.Base Lib.GenTypes Gen.NestingGen Model.Skel Model.Nesting Model.NestingDisc Model.NestingRun Actual.NestingActual.
 
 Definition w_if : list tree := [T (KFn FDef "f" 1 0) [T KIf [T KSimple []]]].
 Theorem C01_py_start_refuted : report Py nesting_actual 1 w_if <> spec_report 1 w_if.
 Proof. vm_compute. discriminate. Qed.
+
+(* a function expression / a generator function exceeding the limit is never reported: the extractor's list has
+   "function" where the grammar's node is function_expression, and no generator type *)
+Definition w_fnexpr : list tree := [T (KFn FFnExpr "f" 1 10) [T KIf [T KSimple []]]].
+Definition w_gen : list tree := [T (KFn FGen "g" 1 0) [T KIf [T KSimple []]]].
+Theorem C01_ts_fn_types_refuted :
+  report Ts nesting_actual 1 w_fnexpr <> spec_report 1 w_fnexpr /\ report Ts nesting_actual 1 w_gen <> spec_report 1 w_gen
+  /\ NestingDisc.report_d Ts nesting_actual 1 w_fnexpr = [].
+Proof. vm_compute. repeat split; discriminate. Qed.
 
 (* regression: the repaired defects no longer separate the faithful model from the specification *)
 Definition w_asyncfor : list tree := [T (KFn FDef "f" 1 0) [T KAsyncFor [T KIf [T KSimple []]]]].
